@@ -29,8 +29,8 @@ Theorem `chunking_irrelevant`: ANY two ways of cutting the same data into PROCES
 the same kind of final request (its own chunk empty in neither, or a PROCESS), all requests driven
 under arbitrary output schedules: equal states up to the ring buffer, equal bytes.  The tree violates
 the chunking clause of C05 exactly where the proviso bites (known finding
-`stream:c05:in-chunking:block-multiple`).  Its one-step form —
-theorem `process_chunking_irrelevant`: PROCESS c1 followed by a request (op2, c2), each driven to
+`stream:c05:in-chunking:block-multiple`).  Its one-step form is
+`process_chunking_irrelevant`: PROCESS c1 followed by a request (op2, c2), each driven to
 completion under ANY output schedule, and the single request (op2, c1 ++ c2) driven under any
 schedule, from abstractly equal starts, end with equal core states modulo the ring buffer
 (`er (core _)`) and equal bytes produced — PROVIDED op2 is PROCESS or c2 is not empty (`hsafe`).
@@ -190,9 +190,9 @@ theorem vstart_mono {s : St} {a b : Bytes} (h : VStart s (a ++ b)) : VStart s a 
   exact ⟨⟨h.good.init, h.good.nf, h.good.ncat, h.good.hint, h.good.bs, by show s.inputPos + a.length < two64; omega, rfl⟩, h.proc⟩
 
 /-- **any number of PROCESS chunks in front of a request merge into it** -/
-theorem vrun_merge_all {o : Oracle} {op : Nat} {c : Bytes} (hsafe : op = 0 ∨ c ≠ []) :
+theorem vrun_merge_all {o : Oracle} {op : Nat} {c : Bytes} {rest : List (Nat × Bytes)} (hsafe : op = 0 ∨ c ≠ []) :
     ∀ (cs : List Bytes) (c1 : Bytes) {s s' : St} {out out' : Bytes}, VStart s (c1 ++ cs.flatten ++ c) →
-      VRun o ((0, c1) :: (procs cs ++ [(op, c)])) s out s' out' → VRun o [(op, c1 ++ cs.flatten ++ c)] s out s' out' := by
+      VRun o ((0, c1) :: (procs cs ++ (op, c) :: rest)) s out s' out' → VRun o ((op, c1 ++ cs.flatten ++ c) :: rest) s out s' out' := by
   intro cs
   induction cs with
   | nil =>
@@ -204,7 +204,7 @@ theorem vrun_merge_all {o : Oracle} {op : Nat} {c : Bytes} (hsafe : op = 0 ∨ c
     have hS' : VStart s ((c1 ++ c2) ++ cs.flatten ++ c) := by
       simpa [List.flatten_cons, List.append_assoc] using hS
     have hS2 : VStart s (c1 ++ c2) := vstart_mono (vstart_mono hS')
-    have h' : VRun o ((0, c1 ++ c2) :: (procs cs ++ [(op, c)])) s out s' out' :=
+    have h' : VRun o ((0, c1 ++ c2) :: (procs cs ++ (op, c) :: rest)) s out s' out' :=
       vrun_merge (Or.inl rfl) hS2 (by simpa [procs] using h)
     have := ih (c1 ++ c2) hS' h'
     simpa [List.flatten_cons, List.append_assoc] using this
@@ -223,10 +223,58 @@ theorem vrun_chunking {o : Oracle} {op : Nat} {c c' : Bytes} {cs cs' : List Byte
     cases ds with
     | nil => simpa [procs] using h
     | cons d1 ds =>
-      have := vrun_merge_all (o := o) hs ds d1 (by simpa [List.flatten_cons, List.append_assoc] using hSd) (by simpa [procs] using h)
+      have := vrun_merge_all (o := o) (rest := []) hs ds d1 (by simpa [List.flatten_cons, List.append_assoc] using hSd) (by simpa [procs] using h)
       simpa [List.flatten_cons, List.append_assoc] using this
   have r1 := key cs c hsafe hS h1
   have r2 := key cs' c' hsafe' (hdata ▸ hS) h2
+  rw [hdata] at r1
+  exact vrun_det _ r1 r2
+
+/-- at a request boundary (the block counter is not 0) an empty PROCESS request does nothing -/
+theorem vstep_idle {o : Oracle} {s : St} {out : Bytes} (hS : VStart s []) (hb : remainingInputBlockSize s ≠ 0) :
+    vstep o 0 ⟨s, out, [], 0⟩ = none := by
+  have hG := hS.toGood out
+  have e0 : ¬ (s.isInitialized = false) := by rw [hG.init]; simp
+  have e2 : ¬ (remainingInputBlockSize s ≠ 0 ∧ (0 : Nat) ≠ 0) := fun hh => hh.2 rfl
+  have e3 : ¬ PadDue s := fun hh => by have h1 := hh.1; rw [hS.proc] at h1; cases h1
+  have e4 : ¬ (s.streamState = .processing ∧ (remainingInputBlockSize s = 0 ∨ (0 : Nat) ≠ 0)) := by
+    intro hh
+    rcases hh.2 with h0 | h0
+    · exact hb h0
+    · exact h0 rfl
+  have e5 : ¬ (s.streamState = .flushRequested) := by rw [hS.proc]; simp
+  unfold vstep
+  simp only [if_neg e0, if_neg hG.nf, if_neg e2, if_neg e3, if_neg e4, if_neg e5]
+
+theorem vrun_insert_empty {o : Oracle} {rest : List (Nat × Bytes)} {s s' : St} {out out' : Bytes}
+    (hS : VStart s []) (hb : remainingInputBlockSize s ≠ 0) (h : VRun o rest s out s' out') :
+    VRun o ((0, []) :: rest) s out s' out' :=
+  .cons (e := ⟨s, out, [], 0⟩) (d := false) ⟨0, .nil _⟩ (Or.inr (vstep_idle hS hb)) rfl (fun _ => rfl) h
+
+/-- **input chunking with an EMPTY final request** (the shape of every adapter: CompressorWriter /
+CompressorReader / BrotliCompressCustomIo only ever issue FLUSH / FINISH with `available_in == 0`):
+two ways of cutting the same data into PROCESS chunks, both followed by the same empty request,
+from a request boundary, end in the same state with the same bytes -/
+theorem vrun_chunking_empty_tail {o : Oracle} {op : Nat} {cs cs' : List Bytes} {s s1 s2 : St} {out out1 out2 : Bytes}
+    (hdata : cs.flatten = cs'.flatten) (hS : VStart s cs.flatten) (hb : remainingInputBlockSize s ≠ 0)
+    (h1 : VRun o (procs cs ++ [(op, [])]) s out s1 out1) (h2 : VRun o (procs cs' ++ [(op, [])]) s out s2 out2) :
+    s1 = s2 ∧ out1 = out2 := by
+  have key : ∀ (ds : List Bytes), VStart s ds.flatten → ∀ {t : St} {ot : Bytes},
+      VRun o (procs ds ++ [(op, [])]) s out t ot → VRun o [(0, ds.flatten), (op, [])] s out t ot := by
+    intro ds hSd t ot h
+    rcases List.eq_nil_or_concat ds with rfl | ⟨es, d, rfl⟩
+    · simp only [procs, List.map_nil, List.nil_append, List.flatten_nil] at h ⊢
+      exact vrun_insert_empty (by simpa using hSd) hb h
+    · simp only [List.concat_eq_append] at h hSd ⊢
+      cases es with
+      | nil => simpa [procs] using h
+      | cons e1 es =>
+        have hfl : (e1 :: es ++ [d]).flatten = e1 ++ es.flatten ++ d := by simp [List.append_assoc]
+        have := vrun_merge_all (o := o) (op := 0) (c := d) (rest := [(op, [])]) (Or.inl rfl) es e1
+          (by rw [← hfl]; exact hSd) (by simpa [procs] using h)
+        rw [hfl]; exact this
+  have r1 := key cs hS h1
+  have r2 := key cs' (hdata ▸ hS) h2
   rw [hdata] at r1
   exact vrun_det _ r1 r2
 
@@ -241,53 +289,144 @@ inductive DrivenC (o : Oracle) : List (Nat × Bytes) → St → Bytes → St →
       (d1 = true ∨ ustep o op (absR s1 [] del1) = none) → (op = 0 → d1 = false) →
       DrivenC o rest s1 del1 s' del' → DrivenC o ((op, chunk) :: rest) s del s' del'
 
-/-- **every driven request list is a run of the ring-free machine** -/
+/-- a run that starts on a fresh encoder starts with the initialisation step -/
+theorem rpath_skip_init {o : Oracle} {op : Nat} {a b : Abs} {d : Bool} (hni : a.s.isInitialized = false)
+    (hst : a.s.streamState = .processing) (h : RPath o op a b d) (hf : d = true ∨ ustep o op b = none) :
+    RPath o op { a with s := core (ensureInitialized a.s) } b d := by
+  have hu : ustep o op a = some { a with s := core (ensureInitialized a.s) } := by
+    unfold ustep; rw [if_pos hni]
+  cases d with
+  | false =>
+    obtain ⟨n, p⟩ := h
+    have ht : ustep o op b = none := by rcases hf with h | h; cases h; exact h
+    cases p with
+    | nil _ => rw [ht] at hu; cases hu
+    | cons hs _ p' =>
+      rw [hu] at hs; cases hs
+      exact ⟨_, p'⟩
+  | true =>
+    obtain ⟨n, x, p, s, f⟩ := h
+    cases p with
+    | nil _ =>
+      exfalso
+      have := f.1
+      rw [hst] at this; cases this
+    | cons hs _ p' =>
+      rw [hu] at hs; cases hs
+      exact ⟨_, x, p', s, f⟩
+
+/-- **every driven request list is a run of the ring-free machine** (the encoder may be fresh: the
+facts `VGood` are about the state `ensure_initialized` makes of it — sanitised quality, chosen lgblock) -/
 theorem drivenC_vrun {o : Oracle} (reqs : List (Nat × Bytes)) :
-    ∀ {s s' : St} {del del' : Bytes}, DrivenC o reqs s del s' del' → VGood (absR s [] del) →
-      VRun o reqs (er (core s)) (del ++ s.pending) (er (core s')) (del' ++ s'.pending) := by
+    ∀ {s s' : St} {del del' : Bytes}, DrivenC o reqs s del s' del' → VGood (absR (ensureInitialized s) [] del) →
+      VRun o reqs (er (core (ensureInitialized s))) (del ++ s.pending) (er (core (ensureInitialized s'))) (del' ++ s'.pending) := by
   induction reqs with
   | nil => intro s s' del del' h _; cases h; exact .nil _ _
   | cons r rest ih =>
     intro s s' del del' h hG
     cases h with
     | @cons op _ chunk _ _ _ s1 _ _ del1 _ d1 hop hB hd hf h0 hr =>
-      have hGc : VGood (absR s chunk del) := ⟨hG.init, hG.nf, hG.ncat, hG.hint, hG.bs, hB.wrap, rfl⟩
       obtain ⟨r1, _⟩ := BV.Props.C05.schedule_refines_abstract hop hB hd
-      obtain ⟨v1, g1⟩ := rpath_er r1 hGc
+      have hip : (ensureInitialized s).inputPos = s.inputPos := by
+        unfold ensureInitialized; split <;> rfl
+      have hGc : VGood (absR (ensureInitialized s) chunk del) :=
+        ⟨hG.init, hG.nf, hG.ncat, hG.hint, hG.bs, by show (ensureInitialized s).inputPos + chunk.length < two64; rw [hip]; exact hB.wrap, rfl⟩
+      have r1' : RPath o op (absR (ensureInitialized s) chunk del) (absR s1 [] del1) d1 := by
+        by_cases hi : s.isInitialized = true
+        · rw [ensureInitialized_id hi]; exact r1
+        · have hfr : IsFresh s := by
+            rcases hB.inv with h | h
+            · exact h
+            · exact absurd h.init hi
+          have hni : (absR s chunk del).s.isInitialized = false := by
+            show s.isInitialized = false
+            cases hh : s.isInitialized
+            · rfl
+            · exact absurd hh hi
+          have hst : (absR s chunk del).s.streamState = .processing := by
+            obtain ⟨p, rfl⟩ := hfr; rfl
+          have := rpath_skip_init hni hst r1 hf
+          have e : ({ absR s chunk del with s := core (ensureInitialized (absR s chunk del).s) } : Abs) = absR (ensureInitialized s) chunk del := by
+            simp only [absR, core_ensure, ensure_pending]
+          rw [e] at this
+          exact this
+      obtain ⟨v1, g1⟩ := rpath_er r1' hGc
       have fin : d1 = true ∨ vstep o op (erA (absR s1 [] del1)) = none := by
         rcases hf with h | h
         · exact Or.inl h
         · exact Or.inr (final_er g1 rfl h)
-      exact .cons (e := erA (absR s1 [] del1)) v1 fin rfl h0 (ih hr g1)
+      have hi1 : s1.isInitialized = true := g1.init
+      have hrec := ih hr (by rw [ensureInitialized_id hi1]; exact g1)
+      rw [ensureInitialized_id hi1] at hrec
+      have hp : (ensureInitialized s).pending = s.pending := ensure_pending s
+      have v1' : VEnd o op ⟨er (core (ensureInitialized s)), del ++ s.pending, chunk, chunk.length⟩ (erA (absR s1 [] del1)) d1 := by
+        rw [erA_absR, hp] at v1; exact v1
+      exact .cons (e := erA (absR s1 [] del1)) v1' fin rfl h0 hrec
+
+theorem core_ensure_congr {s t : St} (h : core t = core s) : core (ensureInitialized t) = core (ensureInitialized s) := by
+  rw [← core_ensure t, ← core_ensure s, h]
+
+/-- the facts `VGood` carry over to an abstractly equal start and to shorter inputs -/
+theorem vgood_transfer {s t : St} {D del delt : Bytes} (hcore : core t = core s)
+    (hG : VGood (absR (ensureInitialized s) D del)) :
+    VGood (absR (ensureInitialized s) [] del) ∧ VGood (absR (ensureInitialized t) [] delt) := by
+  have hw : (ensureInitialized s).inputPos + D.length < two64 := hG.nowrap
+  have hc := core_eq_iff.mp (core_ensure_congr hcore)
+  refine ⟨⟨hG.init, hG.nf, hG.ncat, hG.hint, hG.bs, by show (ensureInitialized s).inputPos + 0 < two64; omega, rfl⟩, ?_⟩
+  exact ⟨hc.2.2.2.2.2.2.2.2.2.1.trans hG.init,
+    by rw [show (absR (ensureInitialized t) [] delt).s.params = (ensureInitialized t).params from rfl, hc.1]; exact hG.nf,
+    by rw [show (absR (ensureInitialized t) [] delt).s.params = (ensureInitialized t).params from rfl, hc.1]; exact hG.ncat,
+    by rw [show (absR (ensureInitialized t) [] delt).s.params = (ensureInitialized t).params from rfl, hc.1]; exact hG.hint,
+    by rw [show (absR (ensureInitialized t) [] delt).s.blockSize = (ensureInitialized t).blockSize from rfl, blockSize_of_params hc.1]; exact hG.bs,
+    by show (ensureInitialized t).inputPos + 0 < two64; rw [hc.2.1]; omega, rfl⟩
+
+theorem ensure_state (s : St) : (ensureInitialized s).streamState = s.streamState := by
+  unfold ensureInitialized; split <;> rfl
 
 /-- **chunking_irrelevant** (model, any output schedules): two ways of cutting the same data into
 PROCESS chunks in front of the same kind of final request — PROCESS, FLUSH or FINISH, its own chunk
 empty in neither history (or the request a PROCESS) —, every request driven to completion under its
-own output-capacity / `take_output` schedule, from abstractly equal starts in PROCESSING (main loop,
-not catable, size hint set, no 64-bit wrap): equal core states up to the ring buffer — positions,
-carry, stream state, the number of payload-encoder invocations — and equal bytes produced. -/
+own output-capacity / `take_output` schedule, from abstractly equal starts in PROCESSING (a fresh
+encoder, or an initialised one; main loop, not catable, size hint set, no 64-bit wrap — stated of the
+state `ensure_initialized` makes of the start): equal core states up to the ring buffer — positions,
+carry, stream state, the number of payload-encoder invocations — and equal bytes produced.
+(`ensureInitialized` in the conclusion is the identity: the end states are initialised.) -/
 theorem chunking_irrelevant {o : Oracle} {op : Nat} {c c' : Bytes} {cs cs' : List Bytes}
     {s t s' t' : St} {del delt del' delt' : Bytes}
     (hsafe : op = 0 ∨ c ≠ []) (hsafe' : op = 0 ∨ c' ≠ []) (hdata : cs.flatten ++ c = cs'.flatten ++ c')
-    (hG : VGood (absR s (cs.flatten ++ c) del)) (hproc : s.streamState = .processing)
+    (hG : VGood (absR (ensureInitialized s) (cs.flatten ++ c) del)) (hproc : s.streamState = .processing)
     (hcore : core t = core s) (hout : delt ++ t.pending = del ++ s.pending)
     (h1 : DrivenC o (procs cs ++ [(op, c)]) s del s' del')
     (h2 : DrivenC o (procs cs' ++ [(op, c')]) t delt t' delt') :
-    er (core s') = er (core t') ∧ del' ++ s'.pending = delt' ++ t'.pending := by
-  have hG0 : VGood (absR s [] del) := ⟨hG.init, hG.nf, hG.ncat, hG.hint, hG.bs, by have hw : s.inputPos + (cs.flatten ++ c).length < two64 := hG.nowrap; show s.inputPos + 0 < two64; omega, rfl⟩
-  have hc := core_eq_iff.mp hcore
-  have hGt : VGood (absR t [] delt) :=
-    ⟨hc.2.2.2.2.2.2.2.2.2.1.trans hG.init, by rw [show (absR t [] delt).s.params = t.params from rfl, hc.1]; exact hG.nf,
-      by rw [show (absR t [] delt).s.params = t.params from rfl, hc.1]; exact hG.ncat,
-      by rw [show (absR t [] delt).s.params = t.params from rfl, hc.1]; exact hG.hint,
-      by rw [show (absR t [] delt).s.blockSize = t.blockSize from rfl, blockSize_of_params hc.1]; exact hG.bs,
-      by have hw : s.inputPos + (cs.flatten ++ c).length < two64 := hG.nowrap; show t.inputPos + 0 < two64; rw [hc.2.1]; omega, rfl⟩
+    er (core (ensureInitialized s')) = er (core (ensureInitialized t')) ∧ del' ++ s'.pending = delt' ++ t'.pending := by
+  obtain ⟨hG0, hGt⟩ := vgood_transfer (delt := delt) hcore hG
   have v1 := drivenC_vrun _ h1 hG0
   have v2 := drivenC_vrun _ h2 hGt
-  rw [hcore, hout] at v2
-  have hS : VStart (er (core s)) (cs.flatten ++ c) :=
-    ⟨⟨hG.init, hG.nf, hG.ncat, hG.hint, hG.bs, hG.nowrap, rfl⟩, hproc⟩
+  rw [core_ensure_congr hcore, hout] at v2
+  have hS : VStart (er (core (ensureInitialized s))) (cs.flatten ++ c) :=
+    ⟨⟨hG.init, hG.nf, hG.ncat, hG.hint, hG.bs, hG.nowrap, rfl⟩, (ensure_state s).trans hproc⟩
   exact vrun_chunking hsafe hsafe' hdata hS v1 v2
+
+/-- **chunking_irrelevant_empty_tail** (model, any output schedules): the adapters' shape — any two ways
+of cutting the same data into PROCESS chunks, both followed by the same EMPTY FLUSH / FINISH request,
+from abstractly equal starts at a request boundary (fresh or initialised): equal core states up to the
+ring buffer, equal bytes -/
+theorem chunking_irrelevant_empty_tail {o : Oracle} {op : Nat} {cs cs' : List Bytes}
+    {s t s' t' : St} {del delt del' delt' : Bytes}
+    (hdata : cs.flatten = cs'.flatten)
+    (hG : VGood (absR (ensureInitialized s) cs.flatten del)) (hproc : s.streamState = .processing)
+    (hb : remainingInputBlockSize (ensureInitialized s) ≠ 0)
+    (hcore : core t = core s) (hout : delt ++ t.pending = del ++ s.pending)
+    (h1 : DrivenC o (procs cs ++ [(op, [])]) s del s' del')
+    (h2 : DrivenC o (procs cs' ++ [(op, [])]) t delt t' delt') :
+    er (core (ensureInitialized s')) = er (core (ensureInitialized t')) ∧ del' ++ s'.pending = delt' ++ t'.pending := by
+  obtain ⟨hG0, hGt⟩ := vgood_transfer (delt := delt) hcore hG
+  have v1 := drivenC_vrun _ h1 hG0
+  have v2 := drivenC_vrun _ h2 hGt
+  rw [core_ensure_congr hcore, hout] at v2
+  have hS : VStart (er (core (ensureInitialized s))) cs.flatten :=
+    ⟨⟨hG.init, hG.nf, hG.ncat, hG.hint, hG.bs, hG.nowrap, rfl⟩, (ensure_state s).trans hproc⟩
+  exact vrun_chunking_empty_tail hdata hS hb v1 v2
 
 /-! ### the counter-example at a block boundary (model, fresh encoder, quality 2, size hint set) -/
 
@@ -325,6 +464,12 @@ def nvStart : St := ensureInitialized (setParameter (setParameter St.new 1 5).1 
 example : VGood (absR nvStart [1, 2, 3, 4] []) :=
   ⟨by decide, by decide, by decide, by decide, by decide, by decide, rfl⟩
 example : nvStart.streamState = .processing := by decide
+/-- a FRESH quality-5 encoder with size hint 1000: the hypotheses of `chunking_irrelevant` hold of it -/
+def nvFresh : St := (setParameter (setParameter St.new 1 5).1 5 1000).1
+example : VGood (absR (ensureInitialized nvFresh) [1, 2, 3, 4] []) :=
+  ⟨by decide, by decide, by decide, by decide, by decide, by decide, rfl⟩
+example : nvFresh.streamState = .processing ∧ remainingInputBlockSize (ensureInitialized nvFresh) ≠ 0 := by decide
+example : Bnd 0 nvFresh [1, 2] := bnd_fresh (setParameter_fresh (setParameter_fresh ⟨{}, rfl⟩ 1 5) 5 1000) (by decide)
 /-- the two histories PROCESS [1, 2], FINISH [3, 4] and FINISH [1, 2, 3, 4] run to completion in the model -/
 def nvCheck (r : Option (St × Bytes × Bytes × Bool)) : Bool :=
   match r with
